@@ -405,11 +405,23 @@ fn main() {
                 obj.carousel = Some(CarouselSpec::DelayMs(0));
             }
             // the FDT takes 2 packets; r counts from the first packet of the stream
-            let script = vec![(When::Start, Op::Add(0)), (When::Start, Op::Publish), (When::Packets(r), Op::Remove(0)), (When::Packets(r), Op::Publish)];
+            let mut script = vec![(When::Start, Op::Add(0)), (When::Start, Op::Publish), (When::Packets(r), Op::Remove(0)), (When::Packets(r), Op::Publish)];
+            let mut objs = vec![obj];
+            // every other case: a second object waits behind the removed one in a queue with a single slot - the session
+            // that closes the removed object goes on with it in the same read() call; it must be sent whole, flag at its end
+            let follower = i % 2 == 1;
+            if follower {
+                spec.queues = vec![(0, 1)];
+                let mut f = ObjSpec::new(gen_bytes(&mut rng, 41), "file:///r/follower.bin");
+                f.oti = Some(OtiSpec::new(fec, 8, 3, parity));
+                f.max_transfer_count = 1 + (i / 2 % 2) as u32;
+                objs.push(f);
+                script.insert(1, (When::Start, Op::Add(1)));
+            }
             let mut cr = CaseResult::default();
             let mut opts = ScriptOpts::every(50, 60);
             opts.max_packets = 400;
-            run_case(&spec, &[obj], &script, &opts, &mut cr, &format!("rem{}|{}|{:?}|", r, carousel, imm));
+            run_case(&spec, &objs, &script, &opts, &mut cr, &format!("rem{}|{}|{:?}|{}|", r, carousel, imm, follower));
             cr
         }));
         // ---- close session packet: A only there
